@@ -29,7 +29,7 @@
     C02_exact: pairs in which SQLite's Normalize rewrites something (autoindex names,
     re-symbolled foreign keys), and table attributes of MySQL / PostgreSQL. *)
 From Coq Require Import List NArith Bool Arith Permutation.
-From Atlas Require Import Base.Bytes Diff.Schema Diff.DiffModel Diff.DiffSqlite Diff.DiffDialects Diff.DiffProofs Diff.DiffSqliteProofs Diff.DiffDialectsProofs Diff.DiffSqliteCopy Diff.DiffMysqlVariants Diff.DiffMysqlVariantsProofs Diff.DiffUnnamedProofs Diff.DiffSqliteNumFk Diff.DiffRealm Diff.DiffRealmProofs Diff.DiffSqliteExact Diff.DiffTableAttrs Diff.DiffTableAttrsProofs.
+From Atlas Require Import Base.Bytes Diff.Schema Diff.DiffModel Diff.DiffSqlite Diff.DiffDialects Diff.DiffProofs Diff.DiffSqliteProofs Diff.DiffDialectsProofs Diff.DiffSqliteCopy Diff.DiffMysqlVariants Diff.DiffMysqlVariantsProofs Diff.DiffUnnamedProofs Diff.DiffSqliteNumFk Diff.DiffRealm Diff.DiffRealmProofs Diff.DiffSqliteExact Diff.DiffTableAttrs Diff.DiffTableAttrsProofs Diff.DiffCheckFlags Diff.DiffCheckFlagsProofs.
 Import ListNotations.
 
 (** 1a. Generic: for every driver whose callbacks report nothing on identical
@@ -876,6 +876,44 @@ Proof.
   - intros ns skip s. exact (schema_diff_tx_self (pg_driver_ns ns) _ skip pg_dwf s (pg_refl_laws_ns ns) (pg_sim_laws_ns ns) pg_ta_refl).
 Qed.
 
+(** 11. CHECK constraints with their dialect flag (MySQL [NOT] ENFORCED, PostgreSQL NO INHERIT;
+    DiffCheckFlags.v).  11a. ChecksDiff over flagged checks is exact on every script (as 2d, the
+    compare function now also requires equal flags). *)
+Theorem C02_exact_checks_flags :
+  forall fromC toC ps adds,
+  fromC = map fst ps -> Permutation toC (kept ps ++ adds) ->
+  (forall c o, In (c, o) ps -> forall c2, In c2 toC -> check_compare_to_x c c2 = true -> o = Some c2) ->
+  (forall c c2, In (c, Some c2) ps -> check_compare_to_x c c2 = true) ->
+  (forall c2, In c2 (kept ps) -> existsb (check_compare_to_x c2) (map fst ps) = true) ->
+  (forall a, In a adds -> existsb (check_compare_to_x a) (map fst ps) = false) ->
+  exists adds', Permutation adds adds' /\
+    checks_diff_x fromC toC =
+    chk_expected_x ps ++ map (fun c => AddCheck (kx_name c) (kx_expr c)) adds'.
+Proof. exact checks_diff_x_exact. Qed.
+
+(** 11b. The flag alone: flipping it on a named check is exactly one ModifyCheck (same name, same
+    expression); on an unnamed check (matched by expression *and* flag) it is a DropCheck and an
+    AddCheck; a list of named checks with distinct names diffed with itself gives nothing. *)
+Theorem C02_check_flag_alone :
+  (forall c, kx_name c <> [] ->
+     checks_diff_x [c] [mkCheckX (kx_name c) (kx_expr c) (negb (kx_flag c))] =
+     [ModifyCheck (kx_name c) (kx_expr c) (kx_name c) (kx_expr c)]) /\
+  (forall c, kx_name c = [] ->
+     checks_diff_x [c] [mkCheckX (kx_name c) (kx_expr c) (negb (kx_flag c))] =
+     [DropCheck [] (kx_expr c); AddCheck [] (kx_expr c)]) /\
+  (forall l, NoDup (map kx_name l) -> (forall c, In c l -> kx_name c <> []) -> checks_diff_x l l = []).
+Proof. exact (conj checks_diff_x_flag_named (conj checks_diff_x_flag_unnamed checks_diff_x_same)). Qed.
+
+(** 11c. tableDiff with attributes and flagged checks = attribute changes ++ check changes ++ the
+    rest (2f); on a MySQL server without CHECK support a desired table with a check is an error. *)
+Theorem C02_exact_table_checks :
+  (forall (D : DiffDriver) TA KD (skip : tag -> bool) pcs pco from to a k r,
+     TA pcs pco (xk_table from) (xk_table to) = Some a -> KD from to = Some k ->
+     table_diff D skip (tx_table (xk_table from)) (tx_table (xk_table to)) = Some r ->
+     table_diff_xk D TA KD skip pcs pco from to = Some (a ++ k ++ r)) /\
+  (forall v from to, mv_check v = false -> xk_checks to <> [] -> mysql_checks_x v from to = None).
+Proof. exact (conj table_diff_xk_exact mysql_checks_x_no_support). Qed.
+
 (** * Non-vacuity: concrete inputs (vm_compute) *)
 Definition x_a : column := mkColumn [97]%N 2 [105;110;116]%N false None None None.
 Definition x_b : column := mkColumn [98]%N 3 [116;101;120;116]%N true (Some (DLit [39;120;39]%N)) None None.
@@ -1122,6 +1160,20 @@ Example C02_ex_engine_autoinc :
   mysql_autoinc_change (Some 1000%N) (Some 2%N) = [] /\ mysql_autoinc_change None (Some 2%N) = [ModifyAttr ATTR_AUTOINC].
 Proof. repeat split; vm_compute; reflexivity. Qed.
 
+(* round 5: flagged checks.  c1 (n>0) loses ENFORCED, the unnamed (a>0) too, k9 NOT ENFORCED is added *)
+Definition x_kx (n e : str) (f : bool) : check_x := mkCheckX n e f.
+Example C02_ex_check_flags :
+  mysql_table_diff_xk x_v80 no_skip None None
+    (mkTableXK (mkTableX (mkTable [116]%N false false [x_a; x_b] None [] [] []) None None None None None false None)
+               [x_kx [107;49]%N [97;62;48]%N true; x_kx [] [97;62;49]%N true])
+    (mkTableXK (mkTableX (mkTable [116]%N false false [x_a; x_b] None [] [] []) None None None None None false None)
+               [x_kx [107;57]%N [97;62;57]%N false; x_kx [] [97;62;49]%N false; x_kx [107;49]%N [97;62;48]%N false]) =
+  Some [ModifyCheck [107;49]%N [97;62;48]%N [107;49]%N [97;62;48]%N; DropCheck [] [97;62;49]%N;
+        AddCheck [107;57]%N [97;62;57]%N; AddCheck [] [97;62;49]%N] /\
+  mysql_checks_x x_v57 (mkTableXK (mkTableX x_t None None None None None false None) [])
+                       (mkTableXK (mkTableX x_t None None None None None false None) [x_kx [107;49]%N [97;62;48]%N true]) = None.
+Proof. split; vm_compute; reflexivity. Qed.
+
 Print Assumptions C02_self_empty.
 Print Assumptions C02_copy_empty.
 Print Assumptions C02_perm_empty.
@@ -1190,3 +1242,6 @@ Print Assumptions C02_postgres_partition_error.
 Print Assumptions C02_table_attr_laws.
 Print Assumptions C02_self_empty_tx.
 Print Assumptions C02_self_empty_tx_dialects.
+Print Assumptions C02_exact_checks_flags.
+Print Assumptions C02_check_flag_alone.
+Print Assumptions C02_exact_table_checks.
